@@ -102,10 +102,13 @@ func genSchema(t *rapid.T, allowBoolAndEnumResults bool) (string, []mdef, map[st
 				ps = append(ps, mparam{Name: "flags", Type: "#"})
 			}
 			p := mparam{Name: paramName(i)}
-			for used[p.Name] {
-				p.Name += "x"
+			// Pre: two parameters of one definition do not differ only by underscores / case (they would become the
+			// same Go identifier); no shipped schema has such a pair
+			norm := func(s string) string { return strings.ToLower(strings.ReplaceAll(s, "_", "")) }
+			for used[norm(p.Name)] {
+				p.Name += "q"
 			}
-			used[p.Name] = true
+			used[norm(p.Name)] = true
 			if flagsAt >= 0 && i >= flagsAt && rapid.Bool().Draw(t, "opt") {
 				p.Opt = true
 				if len(bitsUsed) > 0 && rapid.IntRange(0, 3).Draw(t, "share") == 0 {
